@@ -30,6 +30,8 @@ from ..lib.evidence import Report, machinery_failure
 
 common.check_repo_import()
 from jsonargparse import ArgumentError, ArgumentParser  # noqa: E402
+from jsonargparse._util import Path as JPath  # noqa: E402
+from jsonargparse.typing import Path_fr  # noqa: E402
 
 PID = "C02"
 KEY = "k"
@@ -51,7 +53,9 @@ LEAF_INV = {v: k for k, v in LEAF.items()}
 
 # the text vocabulary of spec/Types.tla (YamlTbl); every other string the harness produces is a plain word
 PLAIN_ALPHABET = "cdghkmpqwz"  # no YAML 1.1 special word (y, n, yes, no, on, off, true, false, null, ~, .inf ...) can be formed
-FIXED_WORDS = {"abc", "a", "b", "A", "B", "C", "", " ", "x"}
+FIXED_WORDS = {"abc", "a", "b", "A", "B", "C", "", " ", "x", "file.txt", "missing.txt"}
+EXISTING_FILE = "file.txt"  # ExistingFiles of spec/Types.tla: present in the working directory of every worker
+NONE = {"k": "none", "v": 0}
 
 
 # ---------------------------------------------------------------- gamma: abstract -> real
@@ -69,6 +73,8 @@ def gamma_type(t):
         return Literal[tuple(gamma_val(m) for m in a)]
     if k == "enum":
         return ENUMS[a[0]["v"]]
+    if k == "path":
+        return Path_fr
     sub = [gamma_type(s) for s in a]
     _nocache()
     if k == "list":
@@ -90,6 +96,8 @@ def alpha_type(tp):
     """real typing object -> type term (used to check that typing did not reorder / merge anything)."""
     if tp in LEAF_INV:
         return {"k": LEAF_INV[tp], "v": []}
+    if tp is Path_fr:
+        return {"k": "path", "v": []}
     if tp is list:
         return {"k": "list", "v": []}
     if tp is dict:
@@ -124,6 +132,8 @@ def gamma_val(x):
         return v[0] / v[1]
     if k == "enum":
         return ENUMS[v[0]][v[1]]
+    if k == "path":
+        return Path_fr(v)
     if k in ("list", "bag"):
         return [gamma_val(e) for e in v]
     if k == "tuple":
@@ -160,6 +170,8 @@ def alpha_val(v):
         if abs(fr.numerator) >= 2**31 or fr.denominator >= 2**31:
             raise NotAbstractable(repr(v))
         return {"k": "float", "v": [fr.numerator, fr.denominator]}
+    if isinstance(v, JPath):
+        return {"k": "path", "v": str(getattr(v, "relative", v))}
     if isinstance(v, str):
         return {"k": "str", "v": str(v)}
     if isinstance(v, list):
@@ -195,6 +207,8 @@ def type_str(t) -> str:
     k, a = t["k"], t["v"]
     if k in LEAF:
         return {"none": "None", "any": "Any"}.get(k, k)
+    if k == "path":
+        return "Path_fr"
     if k == "literal":
         return "Literal[" + ",".join(repr(gamma_val(m)) for m in a) + "]"
     if k == "enum":
@@ -209,7 +223,7 @@ def type_str(t) -> str:
 def perm_class(t) -> str:
     """the type with the members of every Union sorted: equal for all permutations."""
     k, a = t["k"], t["v"]
-    if k in LEAF or k in ("literal", "enum"):
+    if k in LEAF or k in ("literal", "enum", "path"):
         return canon(t)
     subs = [perm_class(s) for s in a]
     if k == "union":
@@ -228,6 +242,8 @@ def conforms_py(v, tp) -> bool:
         return type(v) is tp
     if tp is list or tp is dict:
         return type(v) is tp
+    if tp is Path_fr:
+        return isinstance(v, Path_fr)
     if isinstance(tp, type) and issubclass(tp, Enum):
         return isinstance(v, tp)
     origin, args = typing.get_origin(tp), typing.get_args(tp)
@@ -251,9 +267,13 @@ def conforms_py(v, tp) -> bool:
 
 
 # ---------------------------------------------------------------- executing cases on the real code
-def make_parser(tp):
+def make_parser(tp, d=None, enable_path=False):
+    """one key of the given type; d: the default as a tagged value (None / none: no default)"""
     p = ArgumentParser(exit_on_error=False)
-    p.add_argument("--" + KEY, type=tp)
+    kw = {"enable_path": True} if enable_path else {}
+    if d is not None and d["k"] != "none":
+        kw["default"] = gamma_val(d)
+    p.add_argument("--" + KEY, type=tp, **kw)
     return p
 
 
@@ -282,7 +302,7 @@ def channels(x):
 
 def _work(job):
     """pool worker: one type term, many inputs."""
-    t, xs = job
+    t, d, xs = job
     try:
         tp = gamma_type(t)
         back = alpha_type(tp)
@@ -291,7 +311,7 @@ def _work(job):
     if canon(back) != canon(t):
         return {"t": t, "error": "typing changed the hint: " + canon(back)}
     try:
-        parser = make_parser(tp)
+        parser = make_parser(tp, d)
     except Exception as ex:
         return {"t": t, "error": f"add_argument: {type(ex).__name__}: {ex}"}
     out = []
@@ -300,12 +320,23 @@ def _work(job):
     return {"t": t, "out": out}
 
 
-def run_jobs(jobs, procs=16):
+def _enter(workdir):
+    os.chdir(workdir)  # forked worker: the cwd of the harness itself is not touched
+
+
+def run_jobs(jobs, procs=16, work=None):
+    """jobs run in forked workers whose working directory is a scratch directory that holds the file of ExistingFiles"""
     if not jobs:
         return []
-    ctx = mp.get_context("fork")
-    with ctx.Pool(min(procs, len(jobs))) as pool:
-        return pool.map(_work, jobs, chunksize=max(1, len(jobs) // (procs * 8)))
+    work = work or _work
+    tmp = common.scratch("types-cwd")
+    try:
+        (tmp / EXISTING_FILE).write_text("content\n")
+        ctx = mp.get_context("fork")
+        with ctx.Pool(min(procs, len(jobs)), initializer=_enter, initargs=(str(tmp),)) as pool:
+            return pool.map(work, jobs, chunksize=max(1, len(jobs) // (procs * 8)))
+    finally:
+        common.rm(tmp)
 
 
 # ---------------------------------------------------------------- random type hints and candidates (TRACE)
@@ -435,7 +466,24 @@ def has_set_input(x) -> bool:
     return False
 
 
+EQ_SCALARS = [{"k": "int", "v": 0}, {"k": "int", "v": 1}, {"k": "int", "v": 2}, {"k": "bool", "v": True}, {"k": "bool", "v": False},
+              {"k": "float", "v": [0, 1]}, {"k": "float", "v": [1, 1]}, {"k": "float", "v": [2, 1]}]
+
+
+def rand_default(rnd, t):
+    """a scalar default for a scalar-ish hint (canonical or valid but non-canonical), or none"""
+    kinds = kinds_in(t)
+    if depth_of(t) > 1 or kinds & {"list", "set", "tuple", "tupleE", "dict", "any", "path"} or rnd.random() < 0.5:
+        return NONE
+    for _ in range(6):
+        d = good_value(rnd, t, texty=0.0)
+        if d["k"] in ("bool", "int", "float") or (d["k"] == "str" and t["k"] in ("str", "enum", "literal", "union") and d["v"] in ("abc", "a", "b", "A", "B")):
+            return d
+    return NONE
+
+
 def random_cases(rnd, ntypes, per_type, maxdepth=4):
+    """jobs (type term, default, inputs); every job is followed by one permutation of its Unions with the same default and inputs"""
     jobs = []
     seen = set()
     while len(jobs) < ntypes:
@@ -448,6 +496,7 @@ def random_cases(rnd, ntypes, per_type, maxdepth=4):
         if canon(t) in seen:
             continue
         seen.add(canon(t))
+        d = rand_default(rnd, t)
         xs, keys = [], set()
         for _ in range(per_type * 3):
             x = good_value(rnd, t)
@@ -458,19 +507,19 @@ def random_cases(rnd, ntypes, per_type, maxdepth=4):
                 xs.append(x)
             if len(xs) >= per_type:
                 break
-        for s in rnd.sample(TEXTS, min(4, len(TEXTS))):
-            x = {"k": "str", "v": s}
+        extra = [{"k": "str", "v": s_} for s_ in rnd.sample(TEXTS, min(4, len(TEXTS)))] + (EQ_SCALARS if d["k"] != "none" else [])
+        for x in extra:
             if canon(x) not in keys:
                 keys.add(canon(x))
                 xs.append(x)
-        jobs.append((t, xs))
+        jobs.append((t, d, xs))
         # ... and one permutation of its Union members, with the same inputs
         p = permute(rnd, t)
         if canon(p) != canon(t) and canon(p) not in seen:
             try:
                 if canon(alpha_type(gamma_type(p))) == canon(p):
                     seen.add(canon(p))
-                    jobs.append((p, xs))
+                    jobs.append((p, d, xs))
             except Exception:
                 pass
     return jobs
@@ -478,7 +527,7 @@ def random_cases(rnd, ntypes, per_type, maxdepth=4):
 
 def permute(rnd, t):
     k, a = t["k"], t["v"]
-    if k in LEAF or k in ("literal", "enum"):
+    if k in LEAF or k in ("literal", "enum", "path"):
         return t
     subs = [permute(rnd, s) for s in a]
     if k == "union":
@@ -487,7 +536,7 @@ def permute(rnd, t):
 
 
 def depth_of(t) -> int:
-    if t["k"] in LEAF or t["k"] in ("literal", "enum") or not t["v"]:
+    if t["k"] in LEAF or t["k"] in ("literal", "enum", "path") or not t["v"]:
         return 0
     return 1 + max(depth_of(s) for s in t["v"])
 
@@ -509,7 +558,7 @@ def classify_replay(rep, case, chan, real, stats):
     rv = canon(norm(real["v"]))
     ref_ok = real["ok"] == case["acc"] and (not real["ok"] or rv in res)
     alg_ok = real["ok"] == case["aok"] and (not real["ok"] or rv == av)
-    info = {"type": type_str(t), "t": t, "x": x, "channel": chan, "python": python_repro(t, x, chan),
+    info = {"type": type_str(t), "t": t, "d": case.get("d", NONE), "x": x, "channel": chan, "python": python_repro(t, x, chan, case.get("d")),
             "ref_accepts": case["acc"], "ref_results": case["res"], "alg": {"ok": case["aok"], "v": case["av"], "dev": case["dev"]},
             "observed": real}
     if real["ok"] and real["v"]["k"] == "other":
@@ -564,20 +613,23 @@ def report_unbuildable(rep, t, error):
 
 def gamma_repr(x) -> str:
     try:
+        if x["k"] == "path":
+            return f"Path_fr({x['v']!r})"
         return repr(gamma_val(x))
     except Exception:
         return canon(x)
 
 
-def python_repro(t, x, chan) -> str:
+def python_repro(t, x, chan, d=None) -> str:
     call = f"p.parse_object({{'k': {gamma_repr(x)}}})" if chan == "obj" else f"p.parse_args(['--k=' + {x['v']!r}])"
-    return f"p = ArgumentParser(exit_on_error=False); p.add_argument('--k', type={type_str(t)}); {call}"
+    dflt = f", default={gamma_repr(d)}" if d is not None and d["k"] != "none" else ""
+    return f"p = ArgumentParser(exit_on_error=False); p.add_argument('--k', type={type_str(t)}{dflt}); {call}"
 
 
 def kinds_in(t, acc=None):
     acc = set() if acc is None else acc
     acc.add(t["k"])
-    if t["k"] not in ("literal", "enum"):
+    if t["k"] not in ("literal", "enum", "path"):
         for sub in t["v"]:
             kinds_in(sub, acc)
     return acc
@@ -606,17 +658,6 @@ def model_profile(cases) -> dict:
             "inputs_by_kind": inputs, "accepted_cases_where_result_differs_from_input": normalised, "accepted_texts_kept_as_the_original_string_by_a_non_str_type": fallback}
 
 
-def load_known(rep):
-    """tools/findings.d/C02.json is the source of known_findings.json; read it as well so that the check does not
-    depend on the generated file having been refreshed."""
-    f = common.VERIF / "tools" / "findings.d" / f"{rep.pid}.json"
-    if f.exists():
-        have = {k["key"] for k in rep._known}
-        for e in json.loads(f.read_text()):
-            if e.get("property") == rep.pid and e.get("status") == "known" and e["key"] not in have:
-                rep._known.append(e)
-
-
 def vocabulary_check(rep, texts_tbl):
     """every row of the spec's text table on the real loader (yaml_load of _loaders_dumpers)."""
     from jsonargparse._loaders_dumpers import yaml_load
@@ -640,11 +681,10 @@ def main(argv):
     global TEXTS
     tier = "thorough" if (argv and argv[0] == "thorough") else "quick"
     rep = Report(PID, tier)
-    load_known(rep)
     rnd = common.rng(PID)
     rep.assumptions = [
         "texts are opaque to the specification: their meaning is the table YamlTbl of spec/Types.tla (checked row by row against the real loader at the start of a run); every other string the harness produces is a word over the letters 'cdghkmpqwz', which YAML reads as itself",
-        "parser_mode yaml, default None, no enable_path, nargs None: one key of the given type per parser",
+        "parser_mode yaml, no enable_path, nargs None: one key of the given type per parser, without a default or with a scalar / container default of the instance",
         "input sets have at most 2 members in the model and none in the random traces (the order in which Python lists a set is not specified); dict inputs have no two keys that cast to the same key",
         "alpha maps exceptions objects found in a result to the value 'exc'; floats are exact rationals; ints below 2^31",
         "restricted / registered types (C20), dataclasses, class types, Callable, Type are outside this grammar",
@@ -664,9 +704,10 @@ def main(argv):
         machinery_failure(PID, "TLC failed on MC_Types:\n" + mc.stdout[-3000:])
     types = [p["type"] for p in mc.printed if isinstance(p, dict) and "type" in p]
     cases = [p for p in mc.printed if isinstance(p, dict) and "acc" in p]
-    if not cases or len(types) + len(cases) != mc.distinct:
-        machinery_failure(PID, f"TLC printed {len(types)} types + {len(cases)} cases for {mc.distinct} distinct states")
-    cases.sort(key=lambda c: (canon(c["t"]), canon(norm(c["x"]))))
+    absent = [p for p in mc.printed if isinstance(p, dict) and "nok" in p]  # the key is not given: replayed by C10
+    if not cases or len(types) + len(cases) + len(absent) != mc.distinct:
+        machinery_failure(PID, f"TLC printed {len(types)} types + {len(cases)} cases + {len(absent)} absent cases for {mc.distinct} distinct states")
+    cases.sort(key=lambda c: (canon(c["t"]), canon(c["d"]), canon(norm(c["x"]))))
     vocab = [p for p in mc.printed if isinstance(p, dict) and "vocabulary" in p]
     if not vocab:
         machinery_failure(PID, "TLC did not print the text vocabulary")
@@ -677,13 +718,14 @@ def main(argv):
     # ---- REPLAY: every case on the real code
     by_type = {}
     for c in cases:
-        by_type.setdefault(canon(c["t"]), []).append(c)
-    jobs = [(cs[0]["t"], [c["x"] for c in cs]) for _, cs in sorted(by_type.items())]
+        by_type.setdefault((canon(c["t"]), canon(c["d"])), []).append(c)
+    groups = sorted(by_type.items())
+    jobs = [(cs[0]["t"], cs[0]["d"], [c["x"] for c in cs]) for _, cs in groups]
     results = run_jobs(jobs)
     stats = {"non_argument_errors": 0, "unbuildable_types": 0}
     n_exec = 0
-    verdicts = {}  # (perm class, x) -> {type: ok}
-    for (tkey, cs), r in zip(sorted(by_type.items()), results):
+    verdicts = {}  # (perm class, default, x, channel) -> {type: ok}
+    for ((tkey, dkey), cs), r in zip(groups, results):
         if "error" in r:
             stats["unbuildable_types"] += 1
             report_unbuildable(rep, cs[0]["t"], r["error"])
@@ -694,22 +736,23 @@ def main(argv):
                 if real["exc"]:
                     stats["non_argument_errors"] += 1
                 classify_replay(rep, c, ch, real, stats)
-                verdicts.setdefault((perm_class(c["t"]), canon(norm(c["x"])), ch), {})[tkey] = real["ok"]
-                if c["t"]["k"] not in LEAF and c["x"]["k"] != "none":
-                    rep.note_nontrivial(tkey + "|" + canon(norm(c["x"])))
+                verdicts.setdefault((perm_class(c["t"]), dkey, canon(norm(c["x"])), ch), {})[tkey] = real["ok"]
+                if (c["t"]["k"] not in LEAF or c["d"]["k"] != "none") and c["x"]["k"] != "none":
+                    rep.note_nontrivial(tkey + "|" + dkey + "|" + canon(norm(c["x"])))
             if len(rep.samples) < 3 and c["dev"] == [] and c["acc"] and c["t"]["k"] == "union" and c["x"]["k"] in ("list", "str"):
-                rep.sample({"type": type_str(c["t"]), "input": gamma_repr(c["x"]), "python": python_repro(c["t"], c["x"], "obj"),
+                rep.sample({"type": type_str(c["t"]), "input": gamma_repr(c["x"]), "python": python_repro(c["t"], c["x"], "obj", c["d"]),
                             "ref_accepts": c["acc"], "ref_results": c["res"], "alg_predicts": c["av"], "observed": outs[0]})
-    groups = [g for g in verdicts.values() if len(g) > 1]
-    stats["permutation_groups_compared"] = len(groups)
-    stats["permutation_groups_with_different_real_verdicts"] = sum(1 for g in groups if len(set(g.values())) > 1)
+    pgroups = [g for g in verdicts.values() if len(g) > 1]
+    stats["permutation_groups_compared"] = len(pgroups)
+    stats["permutation_groups_with_different_real_verdicts"] = sum(1 for g in pgroups if len(set(g.values())) > 1)
+    stats["model_cases_with_a_default"] = sum(1 for c in cases if c["d"]["k"] != "none")
 
-    # ---- TRACE: random deeper type hints, validated by TLC
-    ntypes, per_type = (220, 14) if tier == "quick" else (2500, 20)
+    # ---- TRACE: random deeper type hints (some with a default), validated by TLC
+    ntypes, per_type = (160, 12) if tier == "quick" else (2500, 20)
     rjobs = random_cases(rnd, ntypes, per_type)
     rres = run_jobs(rjobs)
     obs, meta = [], []
-    for (t, xs), r in zip(rjobs, rres):
+    for (t, d, xs), r in zip(rjobs, rres):
         if "error" in r:
             stats["unbuildable_types"] += 1
             report_unbuildable(rep, t, r["error"])
@@ -718,26 +761,28 @@ def main(argv):
             for ch, real in zip(channels(x), outs):
                 if real["exc"]:
                     stats["non_argument_errors"] += 1
-                    rep.add_drift(f"rejected with {real['exc']} instead of ArgumentError", {"type": type_str(t), "x": x, "channel": ch, "python": python_repro(t, x, ch)})
+                    rep.add_drift(f"rejected with {real['exc']} instead of ArgumentError", {"type": type_str(t), "x": x, "channel": ch, "python": python_repro(t, x, ch, d)})
                 if real["ok"] and real["v"]["k"] == "other":
                     rep.violation(f"unknown-result:{shape(t, x)}", "the result is not a value of the model", {"t": t, "x": x, "observed": real})
                     continue
-                obs.append({"kind": "parse", "t": t, "x": x, "ok": real["ok"], "v": real["v"]})
+                obs.append({"kind": "parse", "t": t, "d": d, "x": x, "ok": real["ok"], "v": real["v"]})
                 meta.append({"chan": ch, "pyok": real["pyok"], "exc": real["exc"]})
-                if t["k"] not in LEAF and x["k"] != "none":
-                    rep.note_nontrivial(canon(t) + "|" + canon(x))
+                if (t["k"] not in LEAF or d["k"] != "none") and x["k"] != "none":
+                    rep.note_nontrivial(canon(t) + "|" + canon(d) + "|" + canon(x))
     stats["random_types"] = len(rjobs)
-    stats["random_types_max_depth"] = max((depth_of(t) for t, _ in rjobs), default=0)
+    stats["random_types_with_a_default"] = sum(1 for _, d, _ in rjobs if d["k"] != "none")
+    stats["random_types_max_depth"] = max((depth_of(t) for t, _, _ in rjobs), default=0)
     stats["random_observations"] = len(obs)
-    rejects = validate_observations(rep, obs, "c02", workers)
+    uniq, index = dedupe(obs)
+    rejects = validate_observations(rep, uniq, "c02", workers)
     by_obs = {}
     for kind, idx, clause in rejects:
         by_obs.setdefault(idx, []).append(clause)
     n_ref_bad = 0
-    for n, o in enumerate(obs, 1):
-        cl = by_obs.get(n, [])
-        m = meta[n - 1]
-        info = {"type": type_str(o["t"]), "t": o["t"], "x": o["x"], "channel": m["chan"], "python": python_repro(o["t"], o["x"], m["chan"]),
+    for n, o in enumerate(obs):
+        cl = by_obs.get(index[n] + 1, [])
+        m = meta[n]
+        info = {"type": type_str(o["t"]), "t": o["t"], "d": o["d"], "x": o["x"], "channel": m["chan"], "python": python_repro(o["t"], o["x"], m["chan"], o["d"]),
                 "observed": {"ok": o["ok"], "v": o["v"]}, "failed_clauses": cl}
         ref = [c for c in cl if c.startswith("ref")]
         if not ref:
@@ -749,15 +794,17 @@ def main(argv):
         n_ref_bad += 1
         c = ref[0]
         if c.startswith("ref/as-alg/"):
-            devs = sorted(d for d in c[len("ref/as-alg/"):].split("+") if d)
+            devs = sorted(d_ for d_ in c[len("ref/as-alg/"):].split("+") if d_)
             report_deviation(rep, devs, o["t"], o["x"], m["chan"], o["ok"], not o["ok"], info)
         else:
             rep.violation(f"{'accept' if o['ok'] else 'reject'}/other:{shape(o['t'], o['x'])}:{m['chan']}",
-                          f"{type_str(o['t'])} with input {gamma_repr(o['x'])} ({m['chan']}): real code {'accepts' if o['ok'] else 'rejects'}"
+                          f"{type_str(o['t'])} with input {gamma_repr(o['x'])} ({m['chan']}"
+                          + (f", default {gamma_repr(o['d'])}" if o["d"]["k"] != "none" else "") + f"): real code {'accepts' if o['ok'] else 'rejects'}"
                           + (f" with {o['v']}" if o["ok"] else "") + " against the specification", info)
     stats["random_observations_disagreeing_with_ref"] = n_ref_bad
     for o, m in list(zip(obs, meta))[:: max(1, len(obs) // 3)][:3]:
-        rep.sample({"type": type_str(o["t"]), "input": gamma_repr(o["x"]), "channel": m["chan"], "observed": {"ok": o["ok"], "v": o["v"]}, "validated_by": "Trace_Types"})
+        rep.sample({"type": type_str(o["t"]), "default": gamma_repr(o["d"]) if o["d"]["k"] != "none" else None, "input": gamma_repr(o["x"]), "channel": m["chan"],
+                    "observed": {"ok": o["ok"], "v": o["v"]}, "validated_by": "Trace_Types"})
 
     finish_stats(rep)
     rep.traces = n_exec + len(obs)
@@ -770,15 +817,29 @@ def main(argv):
     rep.extra["vocabulary_rows_checked"] = n_vocab
     rep.extra["model_profile"] = model_profile(cases)
     rep.extra["replayed_executions"] = n_exec
-    rep.rule = ("cases = (type hint, input) pairs: every pair printed by TLC for the bounded grammar (inputs generated from the type: structures over conforming and "
-                "non-conforming elements, arity +-1, wrong containers, every text of the vocabulary) executed through parse_object and, for texts, parse_args; plus seeded "
-                "random hints up to depth 4.  non-trivial & distinct = distinct pairs whose hint has a container, Union, Literal or Enum and whose input is not None")
+    rep.extra["distinct_random_observations_validated_by_tlc"] = len(uniq)
+    rep.rule = ("cases = (type hint, default, input) triples: every triple printed by TLC for the bounded grammar (inputs generated from the type: structures over conforming and "
+                "non-conforming elements, arity +-1, wrong containers, texts of the vocabulary; arguments with a default x scalars of every kind incl. the ones ==-equal to it) executed "
+                "through parse_object and, for texts, parse_args; plus seeded random hints up to depth 4.  non-trivial & distinct = distinct triples whose hint has a container, Union, "
+                "Literal or Enum (or whose argument has a default) and whose input is not None")
     rep.exhaustive = False
-    rep.explanation = (f"MC_Types enumerated its bounded grammar completely ({len(types)} type terms closed under permuting Union members, {len(cases)} (type, input) cases, "
-                       f"7 invariants in every state); all {len(cases)} cases were replayed on the real code ({n_exec} executions over two channels); "
+    rep.explanation = (f"MC_Types enumerated its bounded grammar completely ({len(types)} (type term, default) pairs, type terms closed under permuting Union members, {len(cases)} cases, "
+                       f"every law in every state); all {len(cases)} cases were replayed on the real code ({n_exec} executions over two channels); "
                        f"{len(obs)} further observations on {len(rjobs)} random hints (depth <= {stats['random_types_max_depth']}) were validated by TLC against Trace_Types. "
                        "The grammar itself is unbounded, so the run is not exhaustive for the property.")
     return rep.finish()
+
+
+def dedupe(obs):
+    """identical observations are validated once: returns the distinct ones and, per observation, the index of its representative"""
+    seen, uniq, index = {}, [], []
+    for o in obs:
+        k = canon(o)
+        if k not in seen:
+            seen[k] = len(uniq)
+            uniq.append(o)
+        index.append(seen[k])
+    return uniq, index
 
 
 def finish_stats(rep):
